@@ -118,6 +118,8 @@ def parse_output(out: str, rc: int, wall: float) -> TlcResult:
             res.violated = res.violated or "temporal"
         elif "Error: Action property" in ln and "violated" in ln:
             res.violated = res.violated or ln.split()[3]
+        elif ln.startswith("Error: Postcondition"):
+            res.violated = res.violated or "postcondition"
         elif ln.startswith("Error: Deadlock reached"):
             res.violated = res.violated or "deadlock"
         if ln.startswith("Error: The behavior up to this point is") or ln.startswith("Error: The following behavior"):
